@@ -1,12 +1,12 @@
 (* Extraction of the C17 codec models (ExtrOcamlBasic only; numbers stay Coq's positive/Z datatypes). *)
 From Coq Require Extraction ExtrOcamlBasic.
-From Verif Require Import Codec.OffsetModel Codec.ImmModel Codec.RangeModel Codec.T32FixModel Codec.BitfieldModel Codec.BfmSemModel Codec.X86ImmModel.
+From Verif Require Import Codec.OffsetModel Codec.ImmModel Codec.RangeModel Codec.T32FixModel Codec.BitfieldModel Codec.BfmSemModel Codec.X86ImmModel Codec.LayoutModel.
 Extraction Blacklist List String Int.
 Extraction "codec.ml" OffsetModel.write_offset OffsetModel.encode_offset OffsetModel.encode_aarch32_imm
   OffsetModel.decode_signed OffsetModel.decode_unsigned OffsetModel.decode_a64_adr OffsetModel.arm_expand_imm
-  T32FixModel.write_offset_fixed T32FixModel.write_offset_var BitfieldModel.encode_bitfield BitfieldModel.ubfm_sem BfmSemModel.ubfm_pc BfmSemModel.sbfm_pc BfmSemModel.bfm_pc
+  T32FixModel.write_offset_fixed T32FixModel.write_offset_var BitfieldModel.encode_bitfield BitfieldModel.ubfm_sem BitfieldModel.encode_ror_imm BitfieldModel.extr_pc BfmSemModel.ubfm_pc BfmSemModel.sbfm_pc BfmSemModel.bfm_pc
   X86ImmModel.arith_reg_imm X86ImmModel.arith_mem_imm X86ImmModel.effective_imm
-  X86ImmModel.test_reg_imm X86ImmModel.test_mem_imm X86ImmModel.mov_reg_imm X86ImmModel.mov_mem_imm X86ImmModel.imul_imm X86ImmModel.push_imm
+  X86ImmModel.test_reg_imm X86ImmModel.test_mem_imm X86ImmModel.mov_reg_imm X86ImmModel.mov_mem_imm LayoutModel.otype_of_index X86ImmModel.imul_imm X86ImmModel.push_imm X86ImmModel.rot_imm X86ImmModel.shld_imm X86ImmModel.cpu_count
   RangeModel.is_int_n_signed RangeModel.is_int_n_unsigned RangeModel.is_uint_n_signed RangeModel.is_uint_n_unsigned
   RangeModel.is_encodable_offset_32 RangeModel.is_encodable_offset_64
   ImmModel.encode_logical_imm ImmModel.decode_bit_masks ImmModel.is_add_sub_imm ImmModel.add_sub_encodable
